@@ -204,6 +204,7 @@ func (x *explorer) explore(prefix, expN []uint8, level int) {
 			if pre > st.MaxPreempt {
 				st.MaxPreempt = pre
 			}
+			viols := inst.Check(res)
 			out := inst.Outcome()
 			if len(st.Outcomes) < 4096 || st.Outcomes[out] > 0 {
 				st.Outcomes[out]++
@@ -211,7 +212,7 @@ func (x *explorer) explore(prefix, expN []uint8, level int) {
 			if len(st.Samples) < 3 && (st.Execs == 1 || len(res.Points) > 0 && st.Execs%97 == 0) {
 				st.Samples = append(st.Samples, choices(res.Points))
 			}
-			for _, v := range inst.Check(res) {
+			for _, v := range viols {
 				x.record(v, res, out, traceOf(inst))
 			}
 		}
@@ -275,6 +276,7 @@ func (x *explorer) record(v Violation, res *Result, out string, trace string) {
 	// every time before the violation is believed.
 	for i := 0; i < x.o.Recheck; i++ {
 		inst2, res2 := RunOnce(x.sc, sched, en, nil, false)
+		inst2.Check(res2)
 		if res2.Status == StatusDiverged || traceOf(inst2) != trace || res2.Status != res.Status {
 			MachineryFault("scenario %s: violating schedule %v is not reproducible (run %d: status %s/%s, trace %q vs %q)",
 				x.sc.Name, sched, i, res2.Status, res.Status, traceOf(inst2), trace)
